@@ -44,7 +44,7 @@ CHECKS = {
          "workers honour shouldStop; route codes are strings; 'told to stop' is read when run() unwinds and again after all threads have finished; sampling, not proof", "3/C13"),
  "C14": ("deterministic simulation: AsynchronousDeferredRunTest over a virtual-time Twisted reactor (real ReactorBase scheduling, seconds/doIteration replaced); scripted Deferred-returning stages; timeouts and delays from a tie-prone grid; SIGINT/reactor.stop injected at seeded virtual instants; timeline model as oracle",
          "seeded exploration: one outcome per run, stage n+1 starts no earlier than stage n completed, success iff the model timeline is clean, strict timeout/interrupt => error (+stop), reactor clean and log observers restored after every run",
-         "tie runs are checked against global invariants only; real reactor not covered; sampling, not proof; two known findings (SIGINT while the code completing the run executes is lost and leaks into the next test; tearDown and cleanups are skipped after a timeout or interrupt, so an observer installed by the test stays: known_findings.json, DESIGN 9.2)", "3/C14"),
+         "tie runs are checked against global invariants only; real reactor not covered; sampling, not proof; one known finding (tearDown and cleanups are skipped after a timeout or interrupt, so an observer installed by the test stays: known_findings.json, DESIGN 9.2)", "3/C14"),
  "C15": ("deterministic simulation: histories of Spinner.run calls over one virtual-time reactor; pre-installed signal handlers, SIGINT/SIGTERM/stop events at seeded instants incl. ties; result-set model as oracle",
          "seeded exploration: each call returns its own result (value / same exception / TimeoutError / NoResultError, a set at ties), guards raise, reactor clean, leftovers reported as junk and nothing else, reactor.stop and the three signal handlers restored",
          "real global reactor not covered (wall-clock timing does not replay); a SIGINT is a stop request only with default_int_handler pre-installed; sampling, not proof", "3/C15"),
@@ -130,7 +130,7 @@ def main():
                     if os.path.exists(os.path.join(HERE, p))],
         "checks": checks,
         "not_applicable": na,
-        "notes": "Family: deterministic simulation with fault injection. One integer (VERIF_SEED) decides every program, fault plan and schedule; violations are shrunk and written to replays/<id>/<hash>.json; ./check <id> --replay <file> reproduces them in a fresh process. Exit 0 held / 1 VIOLATION / 2 harness error. Genuine defects found in /repo are listed in /verif/known_findings.json: status fixed = repaired by a 'fix:' commit (suppresses nothing), status known = recorded, not repaired (two defects of the asynchronous runner, six violation identities of C14: printed as KNOWN-FINDING lines, exit 0).",
+        "notes": "Family: deterministic simulation with fault injection. One integer (VERIF_SEED) decides every program, fault plan and schedule; violations are shrunk and written to replays/<id>/<hash>.json; ./check <id> --replay <file> reproduces them in a fresh process. Exit 0 held / 1 VIOLATION / 2 harness error. Genuine defects found in /repo are listed in /verif/known_findings.json: status fixed = repaired by a 'fix:' commit (suppresses nothing), status known = recorded, not repaired (one defect of the asynchronous runner, three violation identities of C14: printed as KNOWN-FINDING lines, exit 0).",
     }
     with open(os.path.join(HERE, "MANIFEST.json"), "w") as f:
         json.dump(man, f, indent=1)
